@@ -198,6 +198,14 @@ class FilReader(Filterbank):
             unpack_buffer = None
             data = np.frombuffer(read_buffer, dtype=self.bitsinfo.dtype)
 
+        if (
+            start + nsamps == self.header.nsamples
+            and self._file.sinfo.get_combined("datalen")
+            != self.header.nsamples * self.samp_stride
+        ):
+            # A plan that runs to the end of a truncated/corrupted stream
+            msg = "Data section does not hold a whole number of samples"
+            raise ValueError(msg)
         self._file.seek(start * self.samp_stride)
         nreads, lastread = divmod(nsamps, (gulp - skipback))
         if lastread < skipback:
@@ -210,13 +218,19 @@ class FilReader(Filterbank):
         if lastread != 0:
             blocks.append((nreads, lastread * self.header.nchans, 0))
 
+        read_view = memoryview(read_buffer)
+        unpack_view = None if unpack_buffer is None else memoryview(unpack_buffer)
         for ii, block, skip in track(blocks, description=description, disable=quiet):
             logger.debug(
                 f"read_plan: Reading block {ii}/{nreads}, {block} elements, "
                 f"with skipback={skip}",
             )
-            nbytes = self._file.creadinto(read_buffer, unpack_buffer)
             expected_nbytes = int(block * self.chan_stride)
+            # Read only this block (the last one may be shorter than the buffer)
+            nbytes = self._file.creadinto(
+                read_view[:expected_nbytes],
+                None if unpack_view is None else unpack_view[:block],
+            )
             if nbytes != expected_nbytes:
                 msg = (
                     f"Unexpected number of bytes read from file {nbytes} (actual) "
